@@ -1,6 +1,8 @@
 import ZV.Proofs.Der0Int
 import ZV.Proofs.Der0CB
 import ZV.Proofs.TimeInv
+import ZV.Proofs.C19Agree
+import ZV.Generated.C19
 /-!
   C19 — strict DER decoding is canonical in both ASN.1 codecs.
 
@@ -730,5 +732,326 @@ example : ZV.Time.EA.parseGeneralizedTime true
     ZV.Time.EA.parseGeneralizedTime false
     [0x32, 0x30, 0x32, 0x34, 0x30, 0x31, 0x30, 0x31, 0x30, 0x30, 0x30, 0x30, 0x30, 0x30, 0x2e, 0x35, 0x5a] = .err := by
   decide +kernel
+
+/-! ## fourth wave: ENUMERATED, OCTET STRING, NULL, the restricted string types -/
+
+/-- `ReadASN1Int64WithTag` / `ReadASN1Enum` then `AddASN1Int64WithTag` / `AddASN1Enum`, any tag. -/
+theorem cb_int64tag_canonical (tag : UInt8) (s : Bytes) (v : Int) (rest : Bytes)
+    (h : CB.readInt64Tag s tag = .ok (v, rest)) :
+    ∃ pre, CB.addASN1Int64Tag tag v = .ok pre ∧ s = pre ++ rest := by
+  unfold CB.readInt64Tag at h
+  split at h
+  · rename_i body r hr
+    split at h
+    · simp at h
+    · rename_i hc
+      have hc' : checkInteger body = true := by simpa using hc
+      unfold CB.asn1Signed at h
+      by_cases h8 : body.length > 8
+      · simp [h8] at h
+      · simp only [h8, if_false, Res.ok.injEq, Prod.mk.injEq] at h
+        obtain ⟨hv, hrest⟩ := h
+        subst hv; subst hrest
+        obtain ⟨h1, h2⟩ := int_canon hc'
+        simpa [CB.addASN1Int64Tag, CB.signedContent, h1, h2] using cb_readASN1Tag_canonical hr
+  · simp at h
+  · simp at h
+
+/-- ENUMERATED (cryptobyte): `AddASN1Enum (ReadASN1Enum s)` = the consumed element. -/
+theorem cb_enum_canonical (s : Bytes) (v : Int) (rest : Bytes) (h : CB.readEnum s = .ok (v, rest)) :
+    ∃ pre, CB.addASN1Enum v = .ok pre ∧ s = pre ++ rest :=
+  cb_int64tag_canonical 10 s v rest h
+
+example : CB.readEnum [0x0a, 0x02, 0x00, 0x80, 0x07] = .ok (128, [0x07]) ∧ CB.readEnum [0x0a, 0x02, 0x00, 0x7f] = .err := by
+  decide
+
+/-- ENUMERATED (encoding/asn1: `parseInt32`, written by `int64Encoder`) -/
+theorem ea_enum_canonical (bs : Bytes) (v : Int) (h : EA.parseInt32 bs = .ok v) : EA.encodeInt64 v = bs :=
+  ea_int32_canonical bs v h
+
+/-- OCTET STRING (cryptobyte): any content; the header is the canonical one. -/
+theorem cb_octets_canonical (s body rest : Bytes) (h : CB.readOctetString s = .ok (body, rest)) :
+    ∃ pre, CB.addASN1OctetString body = .ok pre ∧ s = pre ++ rest :=
+  cb_readASN1Tag_canonical h
+
+example : CB.readOctetString [0x04, 0x81, 0x01, 0x41] = .err ∧ CB.readOctetString [0x04, 0x01, 0x41] = .ok ([0x41], []) := by
+  decide
+
+/-- NULL (cryptobyte): an accepted NULL element with empty contents is exactly the two octets `AddASN1NULL` writes
+    (`05 81 00` and other non-minimal forms are rejected). -/
+theorem cb_null_canonical (s rest : Bytes) (h : CB.readASN1Tag s 5 = .ok ([], rest)) :
+    s = CB.addASN1NULL ++ rest := by
+  obtain ⟨pre, h1, h2⟩ := cb_readASN1Tag_canonical h
+  have : CB.element 5 [] = .ok [5, 0] := by decide
+  rw [this] at h1
+  simp only [Res.ok.injEq] at h1
+  rw [h2, ← h1]; rfl
+
+example : CB.readASN1Tag [0x05, 0x00, 0xaa] 5 = .ok ([], [0xaa]) ∧ CB.readASN1Tag [0x05, 0x81, 0x00] 5 = .err := by decide
+
+/-- NumericString: decoder and encoder apply the same test, the contents are copied. -/
+theorem ea_numeric_canonical (bs v : Bytes) (h : EA.parseNumericString bs = .ok v) :
+    EA.makeNumericString v = .ok bs := by
+  unfold EA.parseNumericString at h
+  split at h
+  · rename_i hc
+    simp only [Res.ok.injEq] at h
+    subst h
+    simp [EA.makeNumericString, hc]
+  · simp at h
+
+/-- IA5String: `b >= 0x80` (decoder) and `s[i] > 127` (encoder) are the same test. -/
+theorem ea_ia5_canonical (bs v : Bytes) (h : EA.parseIA5String bs = .ok v) :
+    EA.makeIA5String v = .ok bs := by
+  unfold EA.parseIA5String at h
+  split at h
+  · rename_i hc
+    simp only [Res.ok.injEq] at h
+    subst h
+    have : (bs.all fun b => !decide (b.toNat > 127)) = true := by
+      rw [List.all_eq_true] at hc ⊢
+      intro b hb
+      have := hc b hb
+      simp only [decide_eq_true_eq] at this
+      simp; omega
+    simp [EA.makeIA5String, this]
+  · simp at h
+
+/-- T61String: 8-bit clean in both directions. -/
+theorem ea_t61_canonical (bs v : Bytes) (h : EA.parseT61String bs = .ok v) : v = bs := by
+  simp only [EA.parseT61String, Res.ok.injEq] at h; exact h.symm
+
+theorem isPrintable_no_amp (b : UInt8) (h : isPrintable b true true = true) (hb : b ≠ 0x26) :
+    isPrintable b true false = true := by
+  have hne : b.toNat ≠ 38 := fun e => hb (eq_of_toNat (by simpa using e))
+  simp only [isPrintable, Bool.true_and, Bool.false_and, Bool.or_false, Bool.or_eq_true, Bool.and_eq_true,
+    decide_eq_true_eq, beq_iff_eq] at h ⊢
+  omega
+
+/-- PrintableString, proved under the hypothesis that the contents have no `&`.
+    -- FULL: `EA.parsePrintableString bs = .ok v → EA.makePrintableString v = .ok bs` is FALSE (next example):
+    the decoder calls `isPrintable(b, allowAsterisk, allowAmpersand)`, the encoder
+    `isPrintable(s[i], allowAsterisk, rejectAmpersand)` (the same asymmetry as upstream Go, by design). -/
+theorem ea_printable_canonical_partial (bs v : Bytes) (h : EA.parsePrintableString bs = .ok v)
+    (hamp : (0x26 : UInt8) ∉ bs) : EA.makePrintableString v = .ok bs := by
+  unfold EA.parsePrintableString at h
+  split at h
+  · rename_i hc
+    simp only [Res.ok.injEq] at h
+    subst h
+    have : (bs.all fun b => isPrintable b true false) = true := by
+      rw [List.all_eq_true] at hc ⊢
+      intro b hb
+      exact isPrintable_no_amp b (hc b hb) (fun e => hamp (e ▸ hb))
+    simp [EA.makePrintableString, this]
+  · simp at h
+
+/-- the counter-example to the full statement: `A&B` is decoded and cannot be re-encoded -/
+example : EA.parsePrintableString [0x41, 0x26, 0x42] = .ok [0x41, 0x26, 0x42] ∧
+    EA.makePrintableString [0x41, 0x26, 0x42] = .err := by decide
+
+example : EA.parsePrintableString [0x41, 0x2a, 0x42] = .ok [0x41, 0x2a, 0x42] ∧ (0x26 : UInt8) ∉ [0x41, 0x2a, 0x42] := by decide
+
+/-- the other direction holds for every string type: what an encoder writes, the strict decoder reads back -/
+theorem ea_strings_encoder_subset (s out : Bytes) :
+    (EA.makeNumericString s = .ok out → EA.parseNumericString out = .ok s) ∧
+    (EA.makePrintableString s = .ok out → EA.parsePrintableString out = .ok s) ∧
+    (EA.makeIA5String s = .ok out → EA.parseIA5String out = .ok s) := by
+  refine ⟨?_, ?_, ?_⟩
+  · intro h
+    unfold EA.makeNumericString at h
+    split at h
+    · rename_i hc; simp only [Res.ok.injEq] at h; subst h; simp [EA.parseNumericString, hc]
+    · simp at h
+  · intro h
+    unfold EA.makePrintableString at h
+    split at h
+    · rename_i hc; simp only [Res.ok.injEq] at h; subst h
+      have : (s.all fun b => isPrintable b true true) = true := by
+        rw [List.all_eq_true] at hc ⊢
+        intro b hb
+        have := hc b hb
+        simp only [isPrintable, Bool.true_and, Bool.false_and, Bool.or_false, Bool.or_eq_true, Bool.and_eq_true,
+          decide_eq_true_eq, beq_iff_eq] at this ⊢
+        omega
+      simp [EA.parsePrintableString, this]
+    · simp at h
+  · intro h
+    unfold EA.makeIA5String at h
+    split at h
+    · rename_i hc; simp only [Res.ok.injEq] at h; subst h
+      have : (s.all fun b => decide (b.toNat < 128)) = true := by
+        rw [List.all_eq_true] at hc ⊢
+        intro b hb
+        have := hc b hb
+        simp at this ⊢; omega
+      simp [EA.parseIA5String, this]
+    · simp at h
+
+/-! ## the two codecs agree on the common fragment -/
+
+/-- the `Res` of a content parser, paired with the unread rest of the cryptobyte String -/
+def withRest {α} (r : Res α) (rest : Bytes) : Res (α × Bytes) :=
+  match r with
+  | .ok v => .ok (v, rest)
+  | .err => .err
+  | .panic => .panic
+
+/-- base-128 sub-identifiers: `parseBase128Int` and `readBase128Int` are the SAME function of the bytes
+    (encoding/asn1 compares the result with MaxInt32 after the loop, cryptobyte compares the accumulator with
+    2^24 before each shift; both stop after five octets and refuse a leading 0x80). -/
+theorem codecs_agree_base128 (bs : Bytes) : EA.parseBase128Int bs = CB.readBase128Int bs := base128_agree bs
+
+/-- **codecs_agree**: for every byte string `s` from which cryptobyte reads an element of the right tag, each typed
+    cryptobyte reader returns exactly what encoding/asn1's content parser returns on the contents octets
+    (same accept / reject decision, same value): INTEGER → int64, INTEGER → big.Int, BOOLEAN, OBJECT IDENTIFIER,
+    BIT STRING; and ENUMERATED wherever encoding/asn1 (32-bit `Enumerated`) accepts. -/
+theorem codecs_agree (s body rest : Bytes) :
+    (CB.readASN1Tag s 2 = .ok (body, rest) →
+      CB.readInt64 s = withRest (EA.parseInt64 body) rest ∧ CB.readBigInt s = withRest (EA.parseBigInt body) rest) ∧
+    (CB.readASN1Tag s 1 = .ok (body, rest) → CB.readBool s = withRest (EA.parseBool body) rest) ∧
+    (CB.readASN1Tag s 6 = .ok (body, rest) → CB.readOID s = withRest (EA.parseObjectIdentifier body) rest) ∧
+    (CB.readASN1Tag s 3 = .ok (body, rest) → CB.readBitString s = withRest (EA.parseBitString body) rest) ∧
+    (CB.readASN1Tag s 10 = .ok (body, rest) → ∀ v, EA.parseInt32 body = .ok v → CB.readEnum s = .ok (v, rest)) := by
+  refine ⟨?_, ?_, ?_, ?_, ?_⟩
+  · intro h
+    constructor
+    · simp only [CB.readInt64, CB.readInt64Tag, h, EA.parseInt64, CB.asn1Signed, withRest]
+      by_cases hc : checkInteger body <;> by_cases h8 : body.length > 8 <;> simp [hc, h8]
+    · simp only [CB.readBigInt, h, EA.parseBigInt, withRest]
+      by_cases hc : checkInteger body <;> simp [hc]
+  · intro h
+    simp only [CB.readBool, h, EA.parseBool, withRest]
+    cases boolOfContent body <;> rfl
+  · intro h
+    simp only [CB.readOID, h, withRest]
+    cases body with
+    | nil => simp [EA.parseObjectIdentifier]
+    | cons b t =>
+      simp only [EA.parseObjectIdentifier, ← base128_agree, oidArcs_agree]
+      cases EA.parseBase128Int (b :: t) with
+      | ok x =>
+        obtain ⟨v, r⟩ := x
+        simp only
+        cases CB.oidArcs r.length r <;> rfl
+      | err => rfl
+      | panic => rfl
+  · intro h
+    simp only [CB.readBitString, h, withRest]
+    cases body with
+    | nil => simp [EA.parseBitString]
+    | cons b0 tl =>
+      have hb := toNat_lt b0
+      cases tl with
+      | nil =>
+        simp only [EA.parseBitString, lastByte, List.length_cons, List.length_nil]
+        by_cases h7 : b0.toNat > 7
+        · simp [h7]
+        · by_cases h0 : b0.toNat = 0
+          · simp [h0]
+          · have : b0.toNat > 0 := by omega
+            simp [h7, h0, this]
+      | cons c t =>
+        simp only [EA.parseBitString, lastByte, List.length_cons]
+        by_cases h7 : b0.toNat > 7
+        · simp [h7]
+        · by_cases hl : (lastByte (c :: t)).toNat % 2 ^ b0.toNat = 0
+          · simp [h7, hl]
+          · simp [h7, hl]
+  · intro h v hv
+    unfold EA.parseInt32 at hv
+    split at hv
+    · simp at hv
+    · rename_i hc
+      split at hv
+      · rename_i w hw
+        split at hv
+        · simp at hv
+        · simp only [Res.ok.injEq] at hv
+          subst hv
+          unfold EA.parseInt64 at hw
+          simp only [hc] at hw
+          by_cases h8 : body.length > 8
+          · simp [h8] at hw
+          · have hw' : twos body = w := by simpa [h8] using hw
+            have hc' : (!checkInteger body) = false := by simpa using hc
+            simp [CB.readEnum, CB.readInt64Tag, h, hc', CB.asn1Signed, h8, hw']
+      · simp at hv
+      · simp at hv
+
+example : CB.readASN1Tag [0x06, 0x03, 0x2a, 0x86, 0x48, 0x01] 6 = .ok ([0x2a, 0x86, 0x48], [0x01]) ∧
+    CB.readASN1Tag [0x0a, 0x01, 0x05] 10 = .ok ([0x05], []) ∧ EA.parseInt32 [0x05] = .ok 5 := by decide
+
+
+/-! ## T1: the guard expressions of both sources (`ZV.C19.Gen.*` is rewritten by go/extract/c19 from the working
+    tree on every run). The models `ZV.Model.Der0` / `ZV.Model.C19` were written from exactly these expressions; removing
+    or editing a minimal-length / minimal-integer / padding / character-set guard in zcrypto fails the theorem named after
+    the function. -/
+
+theorem t1_ea_parseBool : Gen.ea_parseBool = [ "if:len(bytes)!=1", "case:0", "case:0xff"] := rfl
+
+theorem t1_ea_checkInteger : Gen.ea_checkInteger = [ "if:len(bytes)==0", "if:len(bytes)==1", "if:!AllowPermissiveParsing", "if:(bytes[0]==0&&bytes[1]&0x80==0)||(bytes[0]==0xff&&bytes[1]&0x80==0x80)"] := rfl
+
+theorem t1_ea_parseInt64 : Gen.ea_parseInt64 = [ "if:err!=nil", "if:len(bytes)>8", "for:bytesRead<len(bytes)"] := rfl
+
+theorem t1_ea_parseInt32 : Gen.ea_parseInt32 = [ "if:err!=nil", "if:err!=nil", "if:ret64!=int64(int32(ret64))"] := rfl
+
+theorem t1_ea_parseBitString : Gen.ea_parseBitString = [ "if:len(bytes)==0", "if:paddingBits>7||len(bytes)==1&&paddingBits>0||bytes[len(bytes)-1]&((1<<bytes[0])-1)!=0"] := rfl
+
+theorem t1_ea_parseObjectIdentifier : Gen.ea_parseObjectIdentifier = [ "if:len(bytes)==0", "if:err!=nil", "if:v<80", "for:offset<len(bytes)", "if:err!=nil"] := rfl
+
+theorem t1_ea_parseBase128Int : Gen.ea_parseBase128Int = [ "for:offset<len(bytes)", "if:shifted==5", "if:shifted==0&&b==0x80", "if:b&0x80==0", "if:ret64>math.MaxInt32"] := rfl
+
+theorem t1_ea_parseTagAndLength : Gen.ea_parseTagAndLength = [ "if:offset>=len(bytes)", "if:ret.tag==0x1f", "if:err!=nil", "if:ret.tag<0x1f", "if:offset>=len(bytes)", "if:b&0x80==0", "if:numBytes==0", "for:i<numBytes", "if:offset>=len(bytes)", "if:ret.length>=1<<23", "if:ret.length==0", "if:!AllowPermissiveParsing", "if:ret.length<0x80"] := rfl
+
+theorem t1_ea_parseNumericString : Gen.ea_parseNumericString = [ "if:!AllowPermissiveParsing", "if:!isNumeric(b)"] := rfl
+
+theorem t1_ea_isNumeric : Gen.ea_isNumeric = [ "ret:'0'<=b&&b<='9'||b=='\\x20'"] := rfl
+
+theorem t1_ea_parsePrintableString : Gen.ea_parsePrintableString = [ "if:!AllowPermissiveParsing", "if:!isPrintable(b,allowAsterisk,allowAmpersand)"] := rfl
+
+theorem t1_ea_isPrintable : Gen.ea_isPrintable = [ "ret:'a'<=b&&b<='z'||'A'<=b&&b<='Z'||'0'<=b&&b<='9'||'\\''<=b&&b<=')'||'+'<=b&&b<='/'||b=='\\x20'||b==':'||b=='='||b=='?'||(bool(asterisk)&&b=='*')||(bool(ampersand)&&b=='&')"] := rfl
+
+theorem t1_ea_parseIA5String : Gen.ea_parseIA5String = [ "if:!AllowPermissiveParsing", "if:b>=utf8.RuneSelf"] := rfl
+
+theorem t1_ea_makePrintableString : Gen.ea_makePrintableString = [ "for:i<len(s)", "if:!isPrintable(s[i],allowAsterisk,rejectAmpersand)"] := rfl
+
+theorem t1_ea_makeIA5String : Gen.ea_makeIA5String = [ "for:i<len(s)", "if:s[i]>127"] := rfl
+
+theorem t1_ea_makeNumericString : Gen.ea_makeNumericString = [ "for:i<len(s)", "if:!isNumeric(s[i])"] := rfl
+
+theorem t1_ea_int64EncoderLen : Gen.ea_int64EncoderLen = [ "for:i>127", "for:i<-128"] := rfl
+
+theorem t1_ea_base128IntLength : Gen.ea_base128IntLength = [ "if:n==0", "for:i>0"] := rfl
+
+theorem t1_ea_lengthLength : Gen.ea_lengthLength = [ "for:i>255"] := rfl
+
+theorem t1_ea_appendTagAndLength : Gen.ea_appendTagAndLength = [ "if:t.isCompound", "if:t.tag>=31", "if:t.length>=128"] := rfl
+
+theorem t1_ea_makeObjectIdentifier : Gen.ea_makeObjectIdentifier = [ "if:len(oid)<2||oid[0]>2||(oid[0]<2&&oid[1]>=40)"] := rfl
+
+theorem t1_cb_checkASN1Integer : Gen.cb_checkASN1Integer = [ "if:len(bytes)==0", "if:len(bytes)==1", "if:bytes[0]==0&&bytes[1]&0x80==0||bytes[0]==0xff&&bytes[1]&0x80==0x80"] := rfl
+
+theorem t1_cb_asn1Signed : Gen.cb_asn1Signed = [ "if:length>8", "for:i<length"] := rfl
+
+theorem t1_cb_asn1Unsigned : Gen.cb_asn1Unsigned = [ "if:length>9||length==9&&n[0]!=0", "if:n[0]&0x80!=0", "for:i<length"] := rfl
+
+theorem t1_cb_ReadASN1Enum : Gen.cb_ReadASN1Enum = [ "if:!s.ReadASN1(&bytes,asn1.ENUM)||!checkASN1Integer(bytes)||!asn1Signed(&i,bytes)", "if:int64(int(i))!=i"] := rfl
+
+theorem t1_cb_ReadASN1Boolean : Gen.cb_ReadASN1Boolean = [ "if:!s.ReadASN1(&bytes,asn1.BOOLEAN)||len(bytes)!=1", "case:0", "case:0xff"] := rfl
+
+theorem t1_cb_readBase128Int : Gen.cb_readBase128Int = [ "for:len(*s)>0", "if:i==5", "if:ret>=1<<(31-7)", "if:i==0&&b==0x80", "if:b&0x80==0"] := rfl
+
+theorem t1_cb_ReadASN1ObjectIdentifier : Gen.cb_ReadASN1ObjectIdentifier = [ "if:!s.ReadASN1(&bytes,asn1.OBJECT_IDENTIFIER)||len(bytes)==0", "if:!bytes.readBase128Int(&v)", "if:v<80", "for:len(bytes)>0", "if:!bytes.readBase128Int(&v)"] := rfl
+
+theorem t1_cb_ReadASN1BitString : Gen.cb_ReadASN1BitString = [ "if:!s.ReadASN1(&bytes,asn1.BIT_STRING)||len(bytes)==0||len(bytes)*8/8!=len(bytes)", "if:paddingBits>7||len(bytes)==0&&paddingBits!=0||len(bytes)>0&&bytes[len(bytes)-1]&(1<<paddingBits-1)!=0"] := rfl
+
+theorem t1_cb_readASN1 : Gen.cb_readASN1 = [ "if:len(*s)<2", "if:tag&0x1f==0x1f", "if:outTag!=nil", "if:lenByte&0x80==0", "if:lenLen==0||lenLen>4||len(*s)<int(2+lenLen)", "if:!lenBytes.readUnsigned(&len32,int(lenLen))", "if:len32<128", "if:len32>>((lenLen-1)*8)==0", "if:headerLen+len32<len32", "if:int(length)<0||!s.ReadBytes((*[]byte)(out),int(length))", "if:skipHeader&&!out.Skip(int(headerLen))"] := rfl
+
+theorem t1_cb_addASN1Signed : Gen.cb_addASN1Signed = [ "for:i>=0x80||i<-0x80", "for:length>0"] := rfl
+
+theorem t1_cb_isValidOID : Gen.cb_isValidOID = [ "if:len(oid)<2", "if:oid[0]>2||(oid[0]<=1&&oid[1]>=40)", "if:v<0"] := rfl
+
+theorem t1_cb_flushChild : Gen.cb_flushChild = [ "if:b.child==nil", "if:child.err!=nil", "if:length<0", "if:child.pendingIsASN1", "if:child.pendingLenLen!=1", "if:int64(length)>0xfffffffe", "if:length>0xffffff", "if:length>0xffff", "if:length>0xff", "if:length>0x7f", "if:extraBytes!=0", "for:i>=0", "if:l!=0", "if:b.fixedSize&&&b.result[0]!=&child.result[0]"] := rfl
 
 end ZV.C19
